@@ -91,7 +91,7 @@ CHECKS = {
         "level": "fault_enumeration",
         "rule": "case = one scenario against the real watchtower-client binary (driven over its stdin/stdout plugin protocol) and 1-3 scripted fake towers: 3-7 commitment "
                 "revocations (half of the scenarios notify one of them twice), each tower answering every add_appointment per a random script over {accept, subscription "
-                "error, API error codes, non-JSON, wrong shape, signature by another key, undecodable signature, empty body, connection closed without answer, HTTP 500}; fault "
+                "error, API error codes, non-JSON, wrong shape, signature by another key, undecodable signature, empty body, connection closed without answer, a valid acceptance whose body breaks off half-way, HTTP 500}; fault "
                 "plan per scenario: none / tower outage during some notifications / SIGKILL when the n-th request reaches a tower (before or after its answer) / abort at the "
                 "k-th client commit point (hooked); killed clients are restarted on the same directory and the unanswered notification is sent again. Every fourth scenario is a "
                 "retry-path crash sweep instead: appointments pending for a tower that was down, a reference restart with the tower up records the hook points hit until "
